@@ -447,6 +447,12 @@ func (w *streamingResponseWriter) WriteHeader(status int) {
 	if w.wroteHeader {
 		return
 	}
+	if status >= 100 && status <= 199 && status != http.StatusSwitchingProtocols {
+		// Interim (1xx) responses cannot be relayed through the proxy; only the
+		// final response is forwarded (this mirrors what net/http's own
+		// ResponseWriter does with informational status codes).
+		return
+	}
 	w.wroteHeader = true
 
 	// Initialize the response trailers.
